@@ -1,3 +1,4 @@
+mod fc;
 mod harness;
 mod obs;
 mod props;
@@ -6,6 +7,7 @@ mod registry;
 mod refwalk;
 mod runner;
 mod srcgen;
+mod tsgen;
 mod world;
 
 fn main() {
@@ -13,6 +15,42 @@ fn main() {
   if args.len() < 2 {
     eprintln!("usage: vp <check|worker|replay|sample> <ID> ...");
     std::process::exit(2);
+  }
+  if args[0] == "tsdump" {
+    // developer aid: print generated packages and their fast-check output
+    use proptest::strategy::{Strategy, ValueTree};
+    let n: usize = args[1].parse().unwrap_or(1);
+    let mut runner = proptest::test_runner::TestRunner::deterministic();
+    for _ in 0..n {
+      let raw = tsgen::raw_package(8).new_tree(&mut runner).unwrap().current();
+      let pkg = tsgen::build(&raw);
+      for (p, t) in &pkg.files {
+        println!("--- {p}\n{t}");
+      }
+      println!("retained: {:?}\nexpects_diagnostic: {}", pkg.rec.retained, pkg.rec.expects_diagnostic);
+      let mut g = fc::build_jsr_graph(&[&pkg]);
+      for e in g.module_errors() {
+        println!("GRAPH ERROR: {e}");
+      }
+      fc::run_fast_check(&mut g, None, None);
+      println!("{}", fc::dump(&g));
+    }
+    return;
+  }
+  if args[0] == "tsrec" {
+    let text = std::fs::read_to_string(&args[1]).unwrap();
+    let case: props::c09::Case = serde_json::from_str(&text).unwrap();
+    for raw in &case.pkgs {
+      let pkg = tsgen::build(raw);
+      for (p, t) in &pkg.files {
+        println!("--- {p}\n{t}");
+      }
+      println!("{:#?}", pkg.rec);
+      for d in &pkg.decls {
+        println!("{d:?}");
+      }
+    }
+    return;
   }
   let id = args[1].clone();
   let code = match id.as_str() {
@@ -24,6 +62,8 @@ fn main() {
     "C06" => runner::dispatch(props::c06::spec(), &args),
     "C07" => runner::dispatch(props::c07::spec(), &args),
     "C08" => runner::dispatch(props::c08::spec(), &args),
+    "C09" => runner::dispatch(props::c09::spec(), &args),
+    "C10" => runner::dispatch(props::c10::spec(), &args),
     "C13" => runner::dispatch(props::c13::spec(), &args),
     "C14" => runner::dispatch(props::c14::spec(), &args),
     "C15" => runner::dispatch(props::c15::spec(), &args),
